@@ -31,6 +31,7 @@ type Entry struct {
 	Switches int      `json:"switches,omitempty"`
 	BlockChoices bool `json:"block_choices,omitempty"`
 	YieldUnlock  bool `json:"yield_unlock,omitempty"`
+	Races        bool `json:"races,omitempty"`
 	Strings  bool     `json:"strings,omitempty"`
 	MaxPaths int      `json:"max_paths,omitempty"`
 	TimeoutS int      `json:"timeout_s,omitempty"`
@@ -302,6 +303,7 @@ func cmdCheck(args []string) {
 		}
 		cfg.BlockChoices = e.BlockChoices
 		cfg.YieldUnlock = e.YieldUnlock
+		cfg.Races = e.Races
 		cfg.Strings = e.Strings
 		if e.MaxPaths > 0 {
 			cfg.MaxPaths = e.MaxPaths
